@@ -225,7 +225,9 @@ def check_site_link(rng, url):
                     out.append(("C16:standalone-wrong-outcome:%s-expected-%s" % (cls_sa[0], exp2), "standalone: link %r gave %s" % (url, res2)))
                 if cls_sa[0] == "copy" and res2 == "ok":
                     data = (Path(os.path.realpath(root / "a")) / cls_sa[1]).read_bytes()
-                    mt = mimetypes.guess_type(cls_sa[1])[0] or "application/octet-stream"
+                    mt, enc = mimetypes.guess_type(cls_sa[1])
+                    if mt is None or enc is not None:      # no type known, or the type of what is inside a compressed file: just bytes
+                        mt = "application/octet-stream"
                     if ("data:%s;base64,%s" % (mt, base64.b64encode(data).decode())) not in page:
                         out.append(("C16:data-url-wrong", "link %r" % url))
                 if cls_sa[0] == "invalid" and res2.startswith("raises:"):
@@ -331,6 +333,11 @@ def check_large_embedded_files(scratch):
         for j, t in enumerate(texts):
             names.append("t%d.%s" % (j, ext))
             (d / names[-1]).write_bytes(t)
+    # compressed files: the bytes embedded are not of the type of what they unpack to
+    gz = b"\x1f\x8b\x08\x00" + bytes(range(40))
+    for nm in ("notes.txt.gz", "pic.svgz", "all.tar.gz", "all.tgz", "LOUD.TXT.GZ", "page.html.bz2", "data.csv.xz", "plain", "odd.unknownext"):
+        names.append(nm)
+        (d / nm).write_bytes(gz)
     sizes = [len((d / nm).read_bytes()) for nm in names]
     (d / "r.md").write_text("# Big for 2\n\n    1 x\n\n" + "\n\n".join("![I%d](%s)" % (i, nm) for i, nm in enumerate(names)) + "\n")
     try:
@@ -352,6 +359,20 @@ def check_large_embedded_files(scratch):
             break
         if data != (d / names[i]).read_bytes():
             out.append(("C16:data-url-wrong", "file %s of %d bytes: the embedded copy has %d bytes / differs" % (names[i], n, len(data))))
+            break
+        # the media type named in the header matches the file (a hand-written table of well-known suffixes; compressed files are just bytes)
+        ext = names[i].rpartition(".")[2].lower() if "." in names[i] else ""
+        want_mt = {"svg": "image/svg+xml", "txt": "text/plain", "csv": "text/csv", "html": "text/html", "css": "text/css", "json": "application/json",
+                   "xml": ("text/xml", "application/xml"), "js": ("text/javascript", "application/javascript"), "bin": "application/octet-stream",
+                   "": "application/octet-stream", "unknownext": "application/octet-stream"}.get(ext)
+        got_mt = head[len("data:"):].split(";")[0]
+        if ext in ("gz", "svgz", "tgz", "bz2", "xz"):
+            # whatever name the platform's tables have for the compression, it is not the type of the content
+            if got_mt in ("text/plain", "image/svg+xml", "application/x-tar", "text/html", "text/csv"):
+                out.append(("C16:data-url-media-type-does-not-match-the-file", "compressed file %s is embedded as %r" % (names[i], got_mt)))
+                break
+        elif want_mt is not None and got_mt not in ((want_mt,) if isinstance(want_mt, str) else want_mt):
+            out.append(("C16:data-url-media-type-does-not-match-the-file", "file %s is embedded as %r" % (names[i], got_mt)))
             break
     return out
 
